@@ -62,6 +62,72 @@ def op_doc(N: str, loc: str, body: bool) -> dict:
     return d
 
 
+TYPED = {"date": ({"type": "string", "format": "date"}, "2020-01-02"), "datetime": ({"type": "string", "format": "date-time"}, "2020-01-02T03:04:05+00:00"),
+         "uuid": ({"type": "string", "format": "uuid"}, "00000000-0000-4000-8000-0000000000aa"), "enum": ({"type": "string", "enum": ["r", "g"]}, "g"), "ienum": ({"type": "integer", "enum": [1, 2]}, 2),
+         "model": ({"$ref": "#/components/schemas/Inner"}, {"k": "a"}), "dates": ({"type": "array", "items": {"type": "string", "format": "date"}}, ["2020-01-02", "2021-03-04"]),
+         "models": ({"type": "array", "items": {"$ref": "#/components/schemas/Inner"}}, [{"k": "a"}]), "union": ({"oneOf": [{"$ref": "#/components/schemas/Inner"}, {"type": "string", "format": "date"}]}, "2021-02-03"),
+         "int": ({"type": "integer"}, 5), "num": ({"type": "number"}, 2.5), "bool": ({"type": "boolean"}, True), "nstr": ({"type": "string", "nullable": True}, "txt"), "any": ({}, "free")}
+
+
+def typed_doc(N: str) -> dict:
+    """The candidate as a property of every kind (each kind has its own template with its own locals), in a model that is a
+    JSON value, a JSON body, a form body and a multipart body."""
+    d = docs.base_doc("3.0.3", "Capture API typed")
+    d["components"]["schemas"] = {"Inner": {"type": "object", "properties": {"k": {"type": "string"}}}}
+    d["paths"] = {}
+    ok = {"200": {"description": "ok"}}
+    for kind, (sch, _) in TYPED.items():
+        d["components"]["schemas"]["T" + kind] = {"type": "object", "required": ["other"], "properties": {N: docs.clone(sch), "other": {"type": "integer"}}}
+        ref = {"$ref": "#/components/schemas/T" + kind}
+        d["paths"][f"/json/{kind}"] = {"post": {"operationId": f"json_{kind}", "requestBody": {"content": {"application/json": {"schema": ref}}}, "responses": ok}}
+        d["paths"][f"/multi/{kind}"] = {"post": {"operationId": f"multi_{kind}", "requestBody": {"content": {"multipart/form-data": {"schema": ref}}}, "responses": ok}}
+        if kind in ("date", "datetime", "uuid", "enum", "ienum", "int", "num", "bool", "nstr", "dates"):
+            d["paths"][f"/form/{kind}"] = {"post": {"operationId": f"form_{kind}", "requestBody": {"content": {"application/x-www-form-urlencoded": {"schema": ref}}}, "responses": ok}}
+    return d
+
+
+def norm_typed_obs(res: dict, N: str):
+    import base64
+    out = []
+    rn = lambda k: "§" if k == N else k  # noqa: E731
+    for a, x in actions_results(res):
+        tag = (a.get("x") or {}).get("typed"), (a.get("x") or {}).get("what")
+        if a["a"] == "getattr":
+            out.append((tag, "missing"))
+        elif x.get("action_exc"):
+            out.append((tag, "action_exc", x["action_exc"]["type"]))
+        elif a["a"] == "roundtrip":
+            if x.get("exc"):
+                out.append((tag, "exc", x["stage"], x["exc"]["type"]))
+            else:
+                e = x.get("e")
+                out.append((tag, "ok", json.dumps({rn(k): v for k, v in e.items()} if isinstance(e, dict) else e, sort_keys=True), x.get("eq2"), bool(x.get("nonplain"))))
+        elif a["a"] == "call":
+            vr = x.get("sync_detailed") or {}
+            reqs = vr.get("requests") or []
+            if not reqs:
+                out.append((tag, "exc", (vr.get("exc") or {}).get("type")))
+                continue
+            c = reqs[0]
+            hd = {k.lower(): v for k, v in c["headers"]}
+            ct = hd.get("content-type") or ""
+            content = base64.b64decode(c["content"])
+            if ct.startswith("multipart/form-data"):
+                parts = expect.parse_multipart(content, ct)
+                body = sorted((rn(str(k)), tuple((p.get("payload") or b"").decode("utf-8", "replace") for p in v)) for k, v in parts.items())
+                out.append((tag, "multipart", tuple(body)))
+            elif ct.startswith("application/json"):
+                try:
+                    jb = json.loads(content)
+                    out.append((tag, "json", json.dumps({rn(k): v for k, v in jb.items()} if isinstance(jb, dict) else jb, sort_keys=True)))
+                except ValueError:
+                    out.append((tag, "json", "unparseable"))
+            else:
+                import urllib.parse
+                out.append((tag, ct.split(";")[0], tuple(sorted((rn(k), v) for k, v in urllib.parse.parse_qsl(content.decode("utf-8", "replace"), keep_blank_values=True)))))
+    return out
+
+
 def harvest(trees: list) -> set:
     out = set()
     for tree in trees:
@@ -133,12 +199,14 @@ def main() -> int:
                "list-of-model / union / nested-model / date-time / uuid / enum / typed additional properties) and as a query / header / cookie / path parameter name with and without a request body; oracle: observations equal to the "
                "neutral-name control after renaming the wire name back. distinct = distinct (scope, candidate) pairs compared")
     ev.assumptions = ["candidates that HTTP cannot carry as header / cookie names never arise (identifiers are tokens)"]
-    scopes = [("model", None, None)] + [("param", loc, body) for loc in ("query", "header", "cookie", "path") for body in (False, True)]
+    scopes = [("model", None, None), ("typed", None, None)] + [("param", loc, body) for loc in ("query", "header", "cookie", "path") for body in (False, True)]
 
     def jobs_for(N: str):
         out = []
         for scope, loc, body in scopes:
-            if scope == "model":
+            if scope == "typed":
+                j = run.job(typed_doc(N), want=["tree"] if N == CTL else [], plan={"fn": "c18_typed", "args": {"N": N, "values": {k: v for k, (_, v) in TYPED.items()}}})
+            elif scope == "model":
                 j = run.job(model_doc(N), want=["tree"] if N == CTL else [], plan={"fn": "models_given", "args": {"instances": {"/components/schemas/M": model_instances(N), **model_instances_more(N)}}})
             else:
                 j = run.job(op_doc(N, loc, body), want=["tree"] if N == CTL else [], plan={"fn": "c18_ops", "args": {"N": N, "loc": loc, "body": body}})
@@ -154,8 +222,14 @@ def main() -> int:
             vd.inconclusive_if(True, f"control generation failed for {sc}")
             return run.finish()
         trees.append(res.get("tree") or {})
-        control[sc] = norm_model_obs(res, CTL) if sc[0] == "model" else norm_op_obs(res, CTL, sc[1])
+        control[sc] = norm_model_obs(res, CTL) if sc[0] == "model" else norm_typed_obs(res, CTL) if sc[0] == "typed" else norm_op_obs(res, CTL, sc[1])
+        if sc[0] == "typed":
+            bad_ctl = [o for o in control[sc] if o[1] in ("missing", "action_exc", "exc")]
+            vd.inconclusive_if(bool(bad_ctl), f"the neutral-name control of the typed scope does not work: {bad_ctl[:3]}")
     cands = harvest(trees) | set(keyword.kwlist) | set(keyword.softkwlist)
+    # identifiers the control *endpoint* modules use: each is tried in every parameter scope, also in the quick tier
+    endpoint_ids = harvest([{k: v for k, v in t.items() if "/api/" in "/" + k} for t in trees]) - set(dir(builtins)) - {"Any", "Optional", "Union", "cast", "HTTPStatus", "httpx", "errors", "Response", "Client", "AuthenticatedClient", "UNSET", "Unset"}
+    ev.extra["endpoint_module_identifiers"] = len(endpoint_ids)
     cands -= {CTL, "other", "lst", "un", "inner", "hh", "cc", "k", "b", "r", "when", "uid", "col", "lstq", "M", "Inner"}
     ev.extra["harvested_identifiers"] = len(cands)
     blt = sorted(b for b in dir(builtins) if b.isidentifier())
@@ -175,14 +249,20 @@ def main() -> int:
         for sc, j in jobs_for(N):
             if not N.isascii() and sc[0] == "param" and sc[1] != "query":
                 continue  # header / cookie / path-template names are ASCII tokens
-            if quick and sc[0] == "param" and not (sc == ("param", "query", True) or (ci + sum(map(ord, str(sc))) % 7) % 4 == 0):
+            if quick and sc[0] == "param" and not (sc == ("param", "query", True) or N in endpoint_ids or (ci + sum(map(ord, str(sc))) % 7) % 4 == 0):
                 continue
             info[j["id"]] = (N, sc)
             jobs.append(j)
     rs = run.map(jobs, timeout=300)
+    # names already captured as a plain string property (scope "model") in this run: the typed scope sees the same capture again
+    captured_plain = set()
     for j, res in zip(jobs, rs):
         N, sc = info[j["id"]]
-        scope = "model" if sc[0] == "model" else f"param:{sc[1]}{'+body' if sc[2] else ''}"
+        if sc[0] == "model" and not res.get("_error") and not res.get("exc") and actions_results(res) and norm_model_obs(res, N) != control[sc]:
+            captured_plain.add(N)
+    for j, res in zip(jobs, rs):
+        N, sc = info[j["id"]]
+        scope = sc[0] if sc[0] in ("model", "typed") else f"param:{sc[1]}{'+body' if sc[2] else ''}"
         if res.get("_error") or (res.get("sandbox") or {}).get("_error"):
             continue
         w = {"name": N, "scope": scope, "doc": j["doc"]}
@@ -198,11 +278,25 @@ def main() -> int:
             else:
                 vd.violation(f"not_generated_silently:{scope}:{N}", f"name {N!r} as {scope}: nothing to exercise and no diagnostic", w)
             continue
-        obs = norm_model_obs(res, N) if sc[0] == "model" else norm_op_obs(res, N, sc[1])
-        if obs != control[sc]:
+        obs = norm_model_obs(res, N) if sc[0] == "model" else norm_typed_obs(res, N) if sc[0] == "typed" else norm_op_obs(res, N, sc[1])
+        if sc[0] == "typed" and obs != control[sc]:
+            # one violation per captured template (kind x use), so that a listed capture in one template does not hide another
+            ctl_by = {o[0]: o for o in control[sc]}
+            for o in obs:
+                if ctl_by.get(o[0]) != o:
+                    import unicodedata
+                    if o[1] == "missing" and any(("T" + str(o[0][0])) in ((d_.get("detail") or "") + (d_.get("header") or "")) for d_ in res.get("diags") or []):
+                        ev.count("rejected_with_diagnostic")
+                        continue
+                    if N in captured_plain:
+                        vd.violation(f"captured_name:model:{unicodedata.normalize('NFKC', N)}", f"name {N!r} as a {o[0][0]} property ({o[0][1]}): {str(o[1:])[:160]} vs control {str((ctl_by.get(o[0]) or ())[1:])[:160]} (also captured as a plain string property)", w)
+                        break
+                    vd.violation(f"captured_name:typed:{o[0][0]}:{unicodedata.normalize('NFKC', N)}", f"name {N!r} as a {o[0][0]} property ({o[0][1]}): {str(o[1:])[:160]} vs control {str((ctl_by.get(o[0]) or ())[1:])[:160]}", w)
+                    break
+        elif obs != control[sc]:
             first = next((i for i, (a, b) in enumerate(zip(obs, control[sc])) if a != b), None)
             import unicodedata
-            vd.violation(f"captured_name:{'model' if sc[0] == 'model' else 'param'}:{unicodedata.normalize('NFKC', N)}", f"name {N!r} as {scope}: observation differs from the neutral-name control: {str(obs[first])[:160] if first is not None else len(obs)} vs {str(control[sc][first])[:160] if first is not None else len(control[sc])}", w)
+            vd.violation(f"captured_name:{'model' if sc[0] == 'model' else 'param:' + str(sc[1])}:{unicodedata.normalize('NFKC', N)}", f"name {N!r} as {scope}: observation differs from the neutral-name control: {str(obs[first])[:160] if first is not None else len(obs)} vs {str(control[sc][first])[:160] if first is not None else len(control[sc])}", w)
         ev.seen(("C18", scope, N))
         if len(ev.samples) < 4 and N in ("d", "kwargs", "self", "response") and obs == control[sc]:
             ev.sample({"candidate": N, "scope": scope, "observations_equal_to_control": len(obs)})
